@@ -506,7 +506,8 @@ void ConfigObject::DumpObjects(const String& filename, int attributeTypes)
 
 void ConfigObject::RestoreObject(const String& message, int attributeTypes)
 {
-	Dictionary::Ptr persistentObject = JsonDecode(message);
+	/* written by DumpObjects() with JsonEncode(), which has no nesting limit: must not be subject to the network decoder's */
+	Dictionary::Ptr persistentObject = JsonDecodeTrusted(message);
 
 	String type = persistentObject->Get("type");
 	String name = persistentObject->Get("name");
